@@ -330,7 +330,14 @@ func (r *RefRun) need(n Node) need {
 
 type absent struct{}
 
-func (r *RefRun) evalExpr(text string) (any, error) {
+func (r *RefRun) evalExpr(text string) (res any, rerr error) {
+	defer func() {
+		if p := recover(); p != nil {
+			// the expression library itself panics on some arithmetic faults; for the reference this is
+			// simply "the expression cannot be evaluated"
+			res, rerr = nil, fmt.Errorf("expression %s cannot be evaluated (library panic: %v)", text, p)
+		}
+	}()
 	ex, err := expressions.New(text)
 	if err != nil {
 		return nil, err
